@@ -49,8 +49,9 @@ def run(ctx) -> None:
             raise AnchorError(f"PInterpreter.{name} missing")
         ctx.analysed(f)
         g = cfg_of(f)
+        npar = f.node.args.args[1].arg
         body = [n for n in g.nodes if any(call_attr(c) == "_visit_children" for c in n.calls())]
-        loops = [n for n in g.nodes if n.kind == "test" and norm(n.ast) == "not node.activated" and any(
+        loops = [n for n in g.nodes if n.kind == "test" and norm(n.ast) == f"not {npar}.activated" and any(
             l == "T" and d in g.search([n.id], lambda x: False, collect=True) for d, l in g.succ[n.id])]
         wl = [n for n in loops if n.id in g.search([d for d, l in g.succ[n.id] if l == "T"], lambda x: False, collect=True)]
         if len(body) != 1 or not wl:
@@ -59,7 +60,7 @@ def run(ctx) -> None:
         # on every path to the body, node.activated holds: either the loop was left through its F edge, or the enclosing
         # `if not node.activated` was false
         p = g.search(None, lambda n: n.id == b.id, blocked_edge=lambda s, d, l: g.nodes[s].kind == "test"
-                     and norm(g.nodes[s].ast) == "not node.activated" and l == "F")
+                     and norm(g.nodes[s].ast) == f"not {npar}.activated" and l == "F")
         inst = f"{name}: body runs only with node.activated"
         if p is None:
             ctx.ok("R04a", inst)
